@@ -393,6 +393,15 @@ func c08TreeCase(c Case, res *Result, positions []c08Pos) {
 				return
 			}
 		}
+		// the same positions in a template beyond the size at which the engine switches tokenizers
+		if i == 0 {
+			if !check("print-in-large-template", "{{ "+v.src+" }}"+c08Pad, "{{ "+v.src+" }}", "print ") {
+				return
+			}
+			if !check("set-in-large-template", c08Pad+"{% set zz = "+v.src+" %}{{ zz }}", "{{ "+v.src+" }}", "set ") {
+				return
+			}
+		}
 		if listy {
 			if !check("for-sequence", c08ForTpl(v.src), c08ForRefTpl(v.src), "for ") {
 				return
@@ -405,6 +414,9 @@ func c08TreeCase(c Case, res *Result, positions []c08Pos) {
 		}
 	}
 }
+
+// a comment that contributes nothing but 4200 bytes
+var c08Pad = "{#" + strings.Repeat("p", 4200) + "#}"
 
 func isDecimal(s string) bool {
 	if s == "" {
